@@ -77,6 +77,7 @@ def run(ctx):
         ctx.ob('3a worker-anchor %s' % fn, 'anchor', fn, 'the worker calls %s in its loop' % callee, len(sites) == 1 and sites[0] in b.reaches(sites[0]), str(sites))
         for s in sites:
             lib.exit_requires_flag(ctx, '3b exit-needs-shutdown %s' % fn, b, s, '.DbInner.shutdown', 'the worker returns Ok only after observing the shutdown flag set')
+            lib.loop_continues_after_flag(ctx, '3d keeps-going-after-shutdown %s' % fn, b, s, '.DbInner.shutdown', 'with the shutdown flag set the worker loop can still run another iteration (while work remains)')
             lib.result_guards(ctx, '3c continues-while-more-work %s' % fn, b, [s], s, 'the loop condition also depends on the result of %s: a worker does not exit on shutdown while work remains' % callee)
     fw = ctx.body('db::Db::flush_worker')
     if fw:
